@@ -1,6 +1,43 @@
 """C03 — nil handling follows Default > Prefault > NonOptional > Optional/Nilable."""
-import re
+import os, re, shutil
 from . import common as C
+
+GEN = os.path.join(C.LEAN, "Gozod", "Gen", "C03Tables.lean")
+PMC_EXPECTED_FIRST = "if !isNilInput(input)"
+
+def regenerate(res):
+    """translator: harness/cmd/c03 `gen` (go/ast over REPO's sources) -> Gozod/Gen/C03Tables.lean, rewritten only when changed.
+    Returns (error, hints): error = the translator could not run / find what it looks for; hints = which expectation of
+    Proofs/C03.lean the new table falsifies (aims the failing-input search when the `decide` theorems stop checking)."""
+    ok, out = C.build_harness("C03")
+    if not ok:
+        return "translator (harness/cmd/c03) does not build against the tree:\n" + out[-3000:], []
+    d = os.path.join(C.BUILD, "run", "C03-gen-%d" % os.getpid())
+    shutil.rmtree(d, ignore_errors=True); os.makedirs(d)
+    rc, out = C.run([C.harness_bin("C03"), "-out", d, "gen", C.REPO], env=C.goenv(), timeout=300)
+    if rc != 0:
+        return "translator failed: " + out[-3000:], []
+    new = open(os.path.join(d, "C03Tables.lean")).read()
+    shutil.rmtree(d, ignore_errors=True)
+    old = open(GEN).read() if os.path.exists(GEN) else ""
+    if new != old:
+        with open(GEN, "w") as f: f.write(new)
+        res.notes.append("Gen/C03Tables.lean regenerated (content changed)")
+    sites = re.findall(r'⟨"([^"]*)", "([^"]*)", "([^"]*)", "([^"]*)"⟩', new)
+    hints = []
+    for f, fn, field, kind in sites:
+        allowed = field == "ReportInput" and ((f == "core/context.go" and kind in ("init", "read")) or (f == "internal/issues/finalize.go" and fn == "FinalizeIssue" and kind == "read"))
+        if not allowed:
+            hints.append("%s: %s %ss ParseContext.%s" % (f, fn, kind, field))
+    types_ = re.findall(r'^  \("(Zod\w+)", \[', new, re.M)
+    m = re.search(r"def harnessTypes : List String := \[(.*)\]", new)
+    covered = set(re.findall(r'"(\w+)"', m.group(1))) if m else set()
+    for t in types_:
+        if t not in covered: hints.append("schema type %s declares modifier methods and is not in the harness table" % t)
+    res.coverage["schema_types_in_package"] = len(types_)
+    res.coverage["schema_types_in_harness_table"] = len(covered)
+    res.coverage["parsecontext_sites"] = len(sites)
+    return None, hints
 
 MANIFEST = dict(
    technique="Lean 4 proof by induction over modifier histories (internals = abstraction of the history; processModifiersCore transcribed) and over chains of Transform/Pipe wrappers (ZodTransform.Parse / ZodPipe.Parse transcribed, callback log included) + exhaustive short / random longer histories applied by reflection to real schemas of 30 types, bare and under every wrapper chain up to length 3 with logging sentinel callbacks, judged by the history-only specification",
@@ -17,7 +54,13 @@ THEOREMS = ["Gozod.C03." + t for t in [
     "c03_wrapped_plain", "c03_wrapped_default", "c03_default_skips_all_transforms", "pipeCalls_noPipe", "pipeCalls_only_pipes",
     "hasDefault_applyAll", "pipeCalls_eq_spec", "c03_wrapped_partial", "c03_wrapped_witness_default_checked", "c03_wrapped_nonnil",
     "step_ctx", "step_eq_parseBase", "runSeq_ctx", "runSeq_results", "c03_ctx_history", "c03_ctx_history_discriminates",
-    "specStep_parseBase", "c03_ctx_seq_partial", "c03_ctx_seq_witness"]]
+    "specStep_parseBase", "c03_ctx_seq_partial", "c03_ctx_seq_witness",
+    "c03_ctx_fields_as_modelled", "c03_ctx_never_written", "c03_ctx_state_read_only_for_messages", "c03_pmc_structure_as_transcribed",
+    "c03_harness_covers_every_schema_type"]]
+
+# harness table entries that run the same Parse function as another entry: one class name for one defect
+# (ZodLazyTyped.Parse is `return z.ZodLazy.Parse(input, ctx...)`, types/lazy.go)
+SAME_PARSE = {"lazyany": "lazy"}
 
 def cls(s):
     s = s.strip()
@@ -42,7 +85,7 @@ def seq_key(op, impl, M, S):
     body = C.op_body(op)
     kind = body.split(" ")[1]
     segs = body.split(" / ")[1:]
-    tys = C.op_comment(op).split(" ")[0].split(",")
+    tys = [SAME_PARSE.get(t, t) for t in C.op_comment(op).split(" ")[0].split(",")]
     if " ctx=" not in impl: return "ctx:%s-unreadable-observation" % kind
     isteps, ictx = impl.rsplit(" ctx=", 1)
     if "!fresh" in isteps: return "ctx:outcome-depends-on-context-history"
@@ -75,6 +118,7 @@ def key(op, impl, M, S):
     body = C.op_body(op).split(" ")
     if body[1] in ("cseq", "csib"): return seq_key(op, impl, M, S)
     ty = C.op_comment(op).split(" ")[0]
+    ty = SAME_PARSE.get(ty, ty)
     ops = {"nil": body[5:], "val": body[2:], "wnil": body[6:], "wval": body[4:]}.get(body[1], body[2:])
     if impl.startswith("panic"): return "%s:panic" % ty
     if body[1] == "val":
@@ -121,9 +165,15 @@ def describe(op):
     return "harness/cmd/c03: schema type after '#'; ops applied left to right by reflection (':v'/':i' = argument that does / does not satisfy the schema's check); in=nil|nilptr. wnil/wval: then wrapped in the chain <stack> (T = .Transform(f_i), P = .Pipe(logging target_i), innermost first, i = position); observation = result term + callback log"
 
 def run(res):
+    err, hints = regenerate(res)
+    if err:
+        C.tie_broken(res, "translator C03 (go/ast -> Gen/C03Tables.lean)", err)
+        return res.finish()
     ok, detail = C.prove(res, MODULES, THEOREMS)
     if not ok:
-        C.tie_broken(res, "proof Gozod.Proofs.C03", detail)
+        # the failing-input search is the correspondence run below (its cseq/csib classes exercise exactly what the
+        # table theorems are the premise of); the hints say which extracted fact changed
+        C.tie_broken(res, "proof Gozod.Proofs.C03", ("regenerated table no longer meets the expectation: " + "; ".join(hints) + "\n\n" if hints else "") + detail)
     data, err = C.correspond(res, "C03", feed_impl=True)
     if data is None:
         C.tie_broken(res, "correspondence C03/processModifiersCore", err)
